@@ -186,6 +186,8 @@ pub struct World {
     pub orphan_vamm: Option<Addr>,
     /// history model of funding (advanced by `run_history` only)
     pub fmodel: crate::oracle::FundingModel,
+    /// an already resolved action a directed op wants executed as the very next step of the history
+    pub follow: Option<crate::hist::Act>,
 }
 
 fn c_cw20() -> Box<dyn Contract<Empty>> {
@@ -690,6 +692,7 @@ impl World {
             alien_vamm,
             orphan_vamm,
             fmodel: Default::default(),
+            follow: None,
         };
         // a deployment is used from the block after its creation (see DESIGN C15)
         w.next_block(15, 1);
